@@ -9,6 +9,7 @@ from ..symexec import freeze, show, Path, Event
 from .. import opmodel as om
 from .. import ctx as C
 from .. import actions as A
+from . import common
 
 
 def child_events(F, p: Path, selft, stt) -> List[Tuple[str, Optional[int], Event, Any]]:
@@ -362,6 +363,12 @@ def _r3(chk: Check, R3: str) -> None:
                     isinstance(c[2], tuple) and c[2][:1] == ('sym',) and 'none' in (c[2][4] if len(c[2]) > 4 else ())
                 if not blank_test:
                     problems.append('the action branches on `%s`: the tree it builds depends on what the child subtrees contain' % show(c))
+        for t in ts:
+            for e in t.events:
+                if e.kind == 'call' and e.resolved in F.functions and common.memo_decorators(F.functions[e.resolved].node):
+                    problems.append('the action calls the memoised function %s (%s): the cache answers with what was built for an earlier '
+                                    'argument that compares equal (1, 1.0 and True are one key), so the tree depends on what was parsed before'
+                                    % (e.resolved, common.memo_decorators(F.functions[e.resolved].node)[0]))
         shapes = {A.strip_ids(t.result) if t.raises is None else ('raises',) for t in ts}
         if len(ts) > 1 and not problems and len(shapes) > 1:
             # several templates are fine only for the blank-statement test
